@@ -58,7 +58,7 @@ Differs(r, S) ==
                   \/ S.ct # CtFn(r)
                   \/ Cardinality(S.mt) # Cardinality(MtSet(r))
   ELSE \/ S.p # r.panic
-       \/ ~r.panic /\ r.ev # "month" /\ r.h # now + r.n
+       \/ ~r.panic /\ r.ev # "month" /\ st.ev # "reset" /\ r.h # now + r.n
        \/ ~r.panic /\ \/ S.pl # Plans(r)
                       \/ NoExp(S.sv) # NoExp(Subs(r))
                       \/ S.bal # BalFn(r)
@@ -70,7 +70,8 @@ NoF == [d |-> 0, pi |-> "", pb |-> 0]
 \* block of the plan version GetPlan hands out in line a: latest, not deleted
 LatestBlk(a, p) == LET s == a.plans[p]  c == {i \in 1..Len(s) : s[i].latest /\ s[i].del > a.h} IN
                    IF c = {} THEN NONE ELSE s[CHOOSE i \in c : TRUE].b
-Fired(a, r, c) == r.ev = "month" /\ r.ok /\ \E i \in 1..Len(a.cs[c].mt) : a.cs[c].mt[i] <= r.t
+\* the month timer of c fired in the step a -> r (the month step, or an ordinary advance that passes its expiry)
+Fired(a, r, c) == IsAdv(r) /\ r.ok /\ \E i \in 1..Len(a.cs[c].mt) : a.cs[c].mt[i] <= r.t
 \* months after an expiry of the last paid month
 AfterLast(a, r, c) ==
   LET s == a.cs[c].subn  P == Plans(r) IN     \* plans as the callback saw them
@@ -168,8 +169,8 @@ ExactCharge ==
             c == IF f.on THEN np - f.credit ELSE np IN
         /\ c > 0 /\ st.bal[st.cr] = prev.bal[st.cr] - c /\ st.mb = prev.mb + c /\ OthersSame({st.cr})
   /\ (st.ev = "drain" /\ st.ok) => (st.bal[st.cr] = st.d /\ st.mb = prev.mb /\ OthersSame({st.cr}))
-  /\ (st.ev \in {"auto", "planadd", "plandel", "relay", "block", "epoch", "stale", "payout"}) => OthersSame({})
-  /\ (st.ev = "month" /\ st.ok /\ ~st.panic) =>
+  /\ (st.ev \in {"auto", "planadd", "plandel", "relay"}) => OthersSame({})
+  /\ (IsAdv(st) /\ st.ok /\ ~st.panic) =>
         \* only successful auto-renewals charge: exactly one month of the plan renewed onto, to the recorded creator
         \A b \in Buyers : st.bal[b] = prev.bal[b] - RenewCharge(b)
 MonthResets ==
